@@ -34,6 +34,7 @@ type encoded struct {
 
 // pkgRun is the state of the property loops over one package.
 type pkgRun struct {
+	ctxClass string // class attached to failures reported while it is set
 	eng      *engine
 	sc       *schemaCase
 	pkg      *pkgbuild.Package
@@ -87,7 +88,20 @@ func (r *pkgRun) sample(prop string, format string, args ...interface{}) {
 }
 
 func (r *pkgRun) fail(prop, kind string, di int, op, expected, observed, model, note string) {
+	class := r.ctxClass
+	if kind == "alloc" || kind == "crash" || kind == "timeout" {
+		path := "slice"
+		if strings.HasPrefix(op, "decode") || strings.HasPrefix(op, "make ") || strings.HasPrefix(op, "decs") {
+			path = "stream"
+		}
+		class = strings.TrimPrefix(class+" resource:"+kind+":"+path, " ")
+	}
+	names := make([]string, len(r.sc.env.Defs))
+	for i, d := range r.sc.env.Defs {
+		names[i] = d.Name
+	}
 	r.eng.coll.fail(Failure{
+		Class: class, DefNames: names,
 		Property: prop, Kind: kind, Package: r.pkg.ID, Schema: r.sc.text, Options: r.pkg.Options,
 		Def: r.sc.env.Defs[di].Name, DefIdx: di, Env: r.envLines,
 		Op: session.Abbrev(op, 4000), Expected: session.Abbrev(expected, 2000), Observed: session.Abbrev(observed, 2000),
@@ -125,6 +139,14 @@ func (r *pkgRun) model(prop string, di int, line string) (session.Resp, bool) {
 	case "ok", "err", "panic":
 		r.st(prop).ModelCompared++
 		return resp, true
+	case "fuel":
+		if prop == "C07" {
+			// the model declines run-away counts (a loop over more than 65536 elements that consume
+			// nothing); nothing to compare
+			r.st(prop).dist("model", "declined-runaway-count")
+			r.st(prop).ModelSkipped++
+			return resp, false
+		}
 	}
 	r.st(prop).ModelSkipped++
 	r.fail(prop, "model", di, line, "ok|err|panic", "", resp.Short(), "the model did not answer the request")
